@@ -109,15 +109,17 @@ Qed.
 Lemma read_vbi_safe : forall b vbi mult, safe_rd b (read_vbi b vbi mult).
 Proof.
   induction b; intros; cbn [read_vbi]; cbn; auto.
+  destruct (21 <? mult); [exact I|].
   destruct (_ <? _); [exact I|].
   destruct (_ =? 0); cbn; [lia|].
   specialize (IHb (N.lor vbi (shl32 (N.land a 127) mult)) ((mult + 7) mod 4294967296)).
   destruct (read_vbi b _ _) as [[v r]| | |]; cbn in *; auto.
 Qed.
-(* with at least one byte of input, at least one byte is consumed *)
-Lemma read_vbi_safe1 : forall b vbi mult, b <> [] -> safe_rd1 b (read_vbi b vbi mult).
+(* a successful read consumes at least one byte *)
+Lemma read_vbi_safe1 : forall b vbi mult, safe_rd1 b (read_vbi b vbi mult).
 Proof.
-  destruct b; intros; [congruence|]. cbn [read_vbi].
+  destruct b; intros; [exact I|]. cbn [read_vbi].
+  destruct (21 <? mult); [exact I|].
   destruct (_ <? _); [exact I|].
   destruct (_ =? 0); cbn; [lia|].
   pose proof (read_vbi_safe b (N.lor vbi (shl32 (N.land n 127) mult)) ((mult + 7) mod 4294967296)) as Hs.
@@ -128,28 +130,42 @@ Proof. intros. apply read_vbi_safe. Qed.
 
 (* the value of an accepted variable byte integer is below 2^28 *)
 Lemma read_vbi_bound : forall b vbi mult v r,
-  vbi <= 268435455 -> read_vbi b vbi mult = Ok (v, r) -> v <= 268435455.
+  read_vbi b vbi mult = Ok (v, r) -> v <= 268435455.
 Proof.
-  induction b; intros vbi mult v r Hv H; cbn [read_vbi] in H.
-  - inversion H; subst. exact Hv.
-  - destruct (N.ltb_spec 268435455 (N.lor vbi (shl32 (N.land a 127) mult))); [discriminate|].
-    destruct (_ =? 0).
-    + inversion H; subst. assumption.
-    + eapply IHb; [|exact H]. assumption.
+  induction b; intros vbi mult v r H; cbn [read_vbi] in H; [discriminate|].
+  destruct (21 <? mult); [discriminate|].
+  destruct (N.ltb_spec 268435455 (N.lor vbi (shl32 (N.land a 127) mult))); [discriminate|].
+  destruct (_ =? 0).
+  - inversion H; subst. assumption.
+  - eapply IHb; exact H.
 Qed.
 Lemma read_varint_bound : forall b v r, read_varint b = Ok (v, r) -> v <= 268435455.
-Proof. intros. eapply read_vbi_bound; [|exact H]. lia. Qed.
+Proof. intros. eapply read_vbi_bound; exact H. Qed.
 
 (* what is left is a suffix of the input *)
 Lemma read_vbi_suffix : forall b vbi mult v r, read_vbi b vbi mult = Ok (v, r) -> exists pre, b = pre ++ r.
 Proof.
-  induction b; intros vbi mult v r H; cbn [read_vbi] in H.
-  - inversion H; subst. exists []. reflexivity.
-  - destruct (_ <? _); [discriminate|].
-    destruct (_ =? 0).
-    + inversion H; subst. exists [a]. reflexivity.
-    + apply IHb in H. destruct H as [pre ->]. exists (a :: pre). reflexivity.
+  induction b; intros vbi mult v r H; cbn [read_vbi] in H; [discriminate|].
+  destruct (21 <? mult); [discriminate|].
+  destruct (_ <? _); [discriminate|].
+  destruct (_ =? 0).
+  + inversion H; subst. exists [a]. reflexivity.
+  + apply IHb in H. destruct H as [pre ->]. exists (a :: pre). reflexivity.
 Qed.
+
+(* a variable byte integer occupies at most four bytes [MQTT-1.5.5-1] *)
+Lemma read_vbi_four : forall b vbi mult v r, mult <= 28 ->
+  read_vbi b vbi mult = Ok (v, r) -> len r <= len b /\ 7 * (len b - len r) <= 28 - mult.
+Proof.
+  induction b; intros vbi mult v r Hm H; cbn [read_vbi] in H; [discriminate|].
+  destruct (N.ltb_spec 21 mult); [discriminate|].
+  destruct (_ <? _); [discriminate|]. rewrite len_cons.
+  destruct (_ =? 0).
+  - inversion H; subst. lia.
+  - rewrite N.mod_small in H by lia. apply IHb in H; [|lia]. lia.
+Qed.
+Lemma read_varint_four : forall b v r, read_varint b = Ok (v, r) -> len r <= len b /\ len b - len r <= 4.
+Proof. intros b v r H. apply read_vbi_four in H; [|lia]. lia. Qed.
 
 (* ---------------------------------------------------------------- bit facts *)
 Lemma testbit_small : forall a m i, a < 2 ^ m -> m <= i -> N.testbit a i = false.
@@ -198,7 +214,7 @@ Qed.
 Lemma read_vbi_cont : forall b r vbi mult, b < 128 -> mult <= 21 -> vbi < 2 ^ mult ->
   read_vbi ((b + 128) :: r) vbi mult = read_vbi r (vbi + b * 2 ^ mult) (mult + 7).
 Proof.
-  intros b r vbi mult Hb Hm Hv. cbn [read_vbi].
+  intros b r vbi mult Hb Hm Hv. cbn [read_vbi]. replace (21 <? mult) with false by lia.
   rewrite land_127. replace ((b + 128) mod 128) with b by lia.
   unfold shl32. replace (mult <? 32) with true by lia.
   assert (Hs : N.shiftl b mult = b * 2 ^ mult) by apply N.shiftl_mul_pow2.
@@ -214,7 +230,7 @@ Qed.
 Lemma read_vbi_last : forall b r vbi mult, b < 128 -> mult <= 21 -> vbi < 2 ^ mult ->
   read_vbi (b :: r) vbi mult = Ok (vbi + b * 2 ^ mult, r).
 Proof.
-  intros b r vbi mult Hb Hm Hv. cbn [read_vbi].
+  intros b r vbi mult Hb Hm Hv. cbn [read_vbi]. replace (21 <? mult) with false by lia.
   rewrite land_127, N.mod_small by assumption.
   unfold shl32. replace (mult <? 32) with true by lia.
   assert (Hs : N.shiftl b mult = b * 2 ^ mult) by apply N.shiftl_mul_pow2.
